@@ -364,4 +364,96 @@ theorem predicted_picture_decodes (s : State) (hs : StoreOK s) (hr : s.running =
   rw [hdp, hsc]
   rfl
 
+/-! ### without a reference -/
+
+/-- without a reference picture, `gather` returns the error as soon as ANY macroblock of the picture needs prediction -/
+theorem gather_none_err (types : Array MbType) (mvs : Array Mv4) (m : Nat) (pic : DecPic) (i : Nat)
+    (hi : i < min types.size mvs.size) (hinter : (types.getD i .inter).isInter = true) :
+    gather types none mvs m pic = .err .uncodedIFrame := by
+  unfold gather
+  have key : ∀ (l : List Nat) (a : DecPic), i ∈ l →
+      l.foldlM (fun (pic : DecPic) j =>
+        if (types.getD j .inter).isInter then
+          (match (none : Option DecPic) with
+          | none => Out.err Err.uncodedIFrame
+          | some r =>
+            if r.fmt.dims != pic.fmt.dims then .err .formatInvalid else
+            match r.fmt.dims with
+            | none => .panic "unwrap on None: luma_samples_per_row"
+            | some (w, _) =>
+              if m = 0 then .panic "remainder by zero" else do
+              let mv := mvs.getD j zeroMv4
+              let px := (j % m) * 16
+              let py := (j / m) * 16
+              let l ← gatherBlock r.luma w (px, py) mv.1 pic.luma
+              let l ← gatherBlock r.luma w (px + 8, py) mv.2.1 l
+              let l ← gatherBlock r.luma w (px, py + 8) mv.2.2.1 l
+              let l ← gatherBlock r.luma w (px + 8, py + 8) mv.2.2.2 l
+              let mvc := mvAdd (mvAdd (mvAdd mv.1 mv.2.1) mv.2.2.1) mv.2.2.2
+              let mvc : Mv := (averageSum mvc.1, averageSum mvc.2)
+              let cx := (j % m) * 8
+              let cy := (j / m) * 8
+              let b ← gatherBlock r.cb r.chromaSpr (cx, cy) mvc pic.cb
+              let c ← gatherBlock r.cr r.chromaSpr (cx, cy) mvc pic.cr
+              pure { pic with luma := l, cb := b, cr := c })
+        else .ok pic) a = .err .uncodedIFrame := by
+    intro l
+    induction l with
+    | nil => intro a h; cases h
+    | cons j js ih =>
+      intro a h
+      rw [List.foldlM_cons]
+      by_cases hj : (types.getD j .inter).isInter = true
+      · simp only [hj, ↓reduceIte]; rfl
+      · have hne : i ≠ j := by intro e; rw [e] at hinter; exact hj hinter
+        have hmem : i ∈ js := by
+          rcases List.mem_cons.mp h with e | e
+          · exact absurd e hne
+          · exact e
+        simp only [hj, Bool.false_eq_true, ↓reduceIte]
+        exact ih a hmem
+  exact key _ pic (List.mem_range.mpr hi)
+
+open H263V.Lemmas.SorensonPicture in
+/-- **A picture needing prediction when no reference exists is rejected with an error** — end to end: a valid predicted picture of
+any flavour with at least one macroblock that needs prediction (INTER of any kind, or not coded), in a reachable state without a
+reference picture. -/
+theorem predicted_without_reference_rejected (s : State) (hs : StoreOK s) (hr : s.running = 0) (p : Pic) (w h : Nat)
+    (hv : p.Valid s w h) (hw : 1 ≤ w) (hh : 1 ≤ h) (hi : (p.picture s).picType ≠ .iFrame) (href : s.getRef = none)
+    (i : Nat) (hil : i < p.mbs.length) (hinter : (typeOf (p.mbs.getD i default)).isInter = true) (rest : Bits) (pos : Nat) :
+    decodeNextPicture s ⟨p.bits s ++ rest, pos⟩ = .err .uncodedIFrame := by
+  obtain ⟨hdims, hcount, ip, hctx, hmbs⟩ := pic_facts s hr p w h hv
+  have hdp := decode_pic s hr p w h hv rest pos
+  have hret := decodeNextPicture_returns s hs ⟨p.bits s ++ rest, pos⟩
+  rw [hdp] at hret ⊢
+  obtain ⟨f, hfm, hfd⟩ := fmtOf_of_dims s _ w h hdims
+  rw [semCore_eq s _ p.mbs w h f hfm hfd hw hh] at hret ⊢
+  have hm1 : 1 ≤ (w + 15) / 16 := by omega
+  cases hsm : semMbs (p.picture s) (some (w, h)) (nextRunning (p.picture s) s.running) ((w + 15) / 16) p.mbs
+      (loop0 (p.picture s) ((w + 15) / 16) ((h + 15) / 16)) with
+  | err e => exact absurd hsm (semMbs_noErr _ hi _ _ _ p.mbs _ e)
+  | panic x => rw [hsm] at hret; cases hret
+  | fuel => rw [hsm] at hret; cases hret
+  | ok l =>
+    simp only [Out.bind_ok]
+    obtain ⟨qs, _, htypes, _, _, _⟩ := semMbs_levels _ (some (w, h)) _ ((w + 15) / 16) hm1 p.mbs _ l hsm
+    obtain ⟨vs, hvc, hvs⟩ := semMbs_vectors _ (some (w, h)) _ ((w + 15) / 16) p.mbs _ l hsm
+    have ht0 : (loop0 (p.picture s) ((w + 15) / 16) ((h + 15) / 16)).types = #[] := rfl
+    have hm0 : (loop0 (p.picture s) ((w + 15) / 16) ((h + 15) / 16)).mvs = #[] := rfl
+    have hts : l.types = (p.mbs.map typeOf).toArray := by rw [htypes, ht0]; simp
+    have hmvs : l.mvs = vs.toArray := by rw [hvs, hm0]; simp
+    rw [hm0] at hvc
+    have hvl := mvChain_length _ _ _ _ p.mbs _ vs hvc
+    have hsize : l.types.size = (w + 15) / 16 * ((h + 15) / 16) := by rw [hts]; simpa using hcount
+    have hmsize : l.mvs.size = (w + 15) / 16 * ((h + 15) / 16) := by rw [hmvs]; simp [hvl, hcount]
+    rw [if_neg (by omega : ¬ l.types.size < (w + 15) / 16 * ((h + 15) / 16)),
+      if_neg (by omega : ¬ l.mvs.size < (w + 15) / 16 * ((h + 15) / 16)), href]
+    unfold reconstruct
+    rw [gather_none_err l.types l.mvs _ _ i (by rw [hsize, hmsize, ← hcount]; simpa using hil) (by
+      rw [hts, Array.getD_eq_getD_getElem?, Array.getElem?_eq_getElem (by simpa using hil)]
+      simp only [List.getElem_toArray, List.getElem_map, Option.getD_some]
+      rw [List.getD_eq_getElem?_getD, List.getElem?_eq_getElem hil] at hinter
+      exact hinter)]
+    rfl
+
 end H263V.Lemmas.InterEnd
